@@ -390,7 +390,10 @@ where
         } else {
             let mut iter = self.bytes_mut_iter();
             let _ = iter.nth(len - 1);
-            L::max_value().emplace(iter.data.unwrap()).unwrap();
+            // `iter.data` now starts at the slot of item `len`, if there is one: terminate the chain there.
+            if let Some(data) = iter.data {
+                L::zero().emplace(data).unwrap();
+            }
         }
     }
 }
